@@ -1,4 +1,7 @@
 pub mod engine;
+pub mod world;
 pub mod props {
+    pub mod c03;
     pub mod c16;
+    pub mod holder;
 }
